@@ -1100,4 +1100,7 @@ class PendingSnapshot:
 
 
 def _generate_random_int64() -> int:
-    return random.randint(0, 2**63 - 1)
+    # The id of an async snapshot keeps its barrier keys apart from those of
+    # earlier snapshots to the same path, so it must not repeat when the
+    # application re-seeds (or restores) the global RNGs. Use OS entropy.
+    return random.SystemRandom().randint(0, 2**63 - 1)
